@@ -91,3 +91,11 @@ prop('C11', technique='contract-based deductive verification: loop invariant wit
                  'records, innermost-statement lookup, and markers wrapped around exactly the code of their statement',
      assumptions=['loc_start of a statement is its first character (pyparsing Located, assumed)'],
      not_covered=['source extracts for several statements per line', 'SELECT CASE marker bookkeeping', 'DebugInfo.add_node record fields beyond offsets'])
+prop('C08', technique='contract-based deductive verification: marker-erasure lemmas of the real generators (debug on vs off), assembler '
+                      'and optimiser contracts over marker placement, frame (reads) conditions over the AST',
+     explanation='with debug information the generators emit the same instructions and labels plus balanced markers; markers occupy no bytes '
+                 'and survive the peephole pass in place; the literal/data/global sections and the semantic passes do not depend on the flag',
+     assumptions=['the two optimised instruction lists (with / without markers) are each equivalent to their unoptimised list (C02), '
+                  'which agree by marker erasure'],
+     not_covered=['SELECT CASE marker bookkeeping', 'programs executing RESUME (excluded by the property)',
+                  'statement generators that consult debug_info_enabled other than gen_if_block / gen_code_for_block'])
